@@ -126,13 +126,13 @@ func runC15(c *kit.Ctx) {
 		} else {
 			blockLen := rusVals[0]
 			chunkLen := rusVals[1]
-			okOrder := kit.Dominates(rus[0].(ssa.Instruction), rus[1].(ssa.Instruction)) && kit.Dominates(rus[1].(ssa.Instruction), rns[0].(ssa.Instruction)) && kit.Dominates(rns[0].(ssa.Instruction), dcs[0].(ssa.Instruction))
+			okOrder := kit.Precedes(rus[0].(ssa.Instruction), rus[1].(ssa.Instruction)) && kit.Precedes(rus[1].(ssa.Instruction), rns[0].(ssa.Instruction)) && kit.Precedes(rns[0].(ssa.Instruction), dcs[0].(ssa.Instruction))
 			nArg := rns[0].Common().Args[1]
 			if cv, ok := nArg.(*ssa.Convert); ok {
 				nArg = cv.X
 			}
 			okN := kit.Same(nArg, chunkLen)
-			okSrc := kit.Same(dcs[0].Common().Args[0], kit.ExtractOf(rns[0].Value(), 0))
+			okSrc := kit.Same(kit.RootAt(dcs[0].Common().Args[0], dcs[0].Block()), kit.ExtractOf(rns[0].Value(), 0))
 			c.Check(okOrder && okN && okSrc, dec, "reader-order", dec.Pos(), "block length, then per chunk: length, exactly that many bytes, Decode of those bytes", "the reader does not read block length, chunk length, chunk, in this order with the chunk length it just read")
 			// running sum and loop condition
 			var sum *ssa.Phi
